@@ -343,3 +343,144 @@ func TestVerif_C14_RefreshManager(t *testing.T) {
 		},
 	})
 }
+
+// ---- Close racing refresh requests, for real ----
+//
+// The bubble part above orders Close and the requests by virtual instants. What it cannot reach is the window inside Close
+// itself - between the loop's exit and the return of the wait - because nothing observable happens there. Here requesters
+// run for real on their own goroutines and re-request as soon as they are answered, Close lands after a drawn number of
+// microseconds, and the whole thing is repeated for a drawn number of rounds. The oracle is the part's usual one (every
+// request answered, Close returns, no panic); a panic in a goroutine that is not the caller's cannot be recovered and ends
+// the test process - the driver reports that as a process crash together with the scenario that was running.
+
+type rrRaceSc struct {
+	Requesters int   `json:"requesters"`
+	Rounds     int   `json:"rounds"`
+	CloseUs    []int `json:"close_us"` // per round (cyclic): microseconds between starting the requesters and Close
+	Auto       bool  `json:"auto_refresh"`
+	NClose     int   `json:"n_close"`
+}
+
+func TestVerif_C14_RefreshManagerRace(t *testing.T) {
+	verifsim.RunCheck(t, verifsim.Check[rrRaceSc]{
+		Property: "C14", Part: "refresh-manager-race",
+		Rule: "rapid, real time: 1-6 goroutines request refreshes from a RtRefreshManager in a loop (each waits for its answer, then asks again) while Close is called 1-2 times after 0-2000 drawn microseconds, repeated for 5-40 " +
+			"rounds with a fresh manager each; refresh queries answer at once; oracle: every request gets exactly one answer, every Close returns within 10 s, nothing panics (a panic outside the calling goroutine ends the process: " +
+			"reported by the driver as a process crash with the scenario in flight); non-trivial = at least one request was answered with the shutdown error and one with a result in the same round",
+		Gen: func(t *rapid.T) rrRaceSc {
+			return rrRaceSc{
+				Requesters: rapid.IntRange(1, 6).Draw(t, "requesters"),
+				Rounds:     rapid.IntRange(5, 40).Draw(t, "rounds"),
+				CloseUs:    rapid.SliceOfN(rapid.SampledFrom([]int{0, 1, 5, 20, 50, 100, 300, 1000, 2000}), 1, 6).Draw(t, "closeUs"),
+				Auto:       rapid.Bool().Draw(t, "auto"),
+				NClose:     rapid.IntRange(1, 2).Draw(t, "nClose"),
+			}
+		},
+		Run: func(t *testing.T, sc rrRaceSc) (res verifsim.Result) {
+			self := rrPeerID(1000)
+			for round := 0; round < sc.Rounds; round++ {
+				h := verifnet.NewHost(self, []ma.Multiaddr{ma.StringCast("/ip4/10.1.1.1/tcp/1")})
+				ps, _ := pstoremem.NewPeerstore()
+				rt, err := kbucket.NewRoutingTable(20, kbucket.ConvertPeerID(self), time.Hour, ps, time.Minute, nil)
+				if err != nil {
+					panic(err)
+				}
+				doneCh := make(chan struct{}, 1024)
+				m, err := NewRtRefreshManager(h, rt, sc.Auto,
+					func(cpl uint) (string, error) { return fmt.Sprintf("cpl-%d", cpl), nil },
+					func(ctx context.Context, key string) error { return nil },
+					func(ctx context.Context, p peer.ID) error { return nil },
+					time.Second, time.Hour, time.Minute, doneCh)
+				if err != nil {
+					res.Fail("constructs", "C14/refresh-manager-race/new", "%v", err)
+					return
+				}
+				m.Start()
+				var wg sync.WaitGroup
+				var mu sync.Mutex
+				okAnswers, errAnswers, bad := 0, 0, ""
+				stop := make(chan struct{})
+				for g := 0; g < sc.Requesters; g++ {
+					wg.Add(1)
+					go func() {
+						defer wg.Done()
+						for {
+							ch := m.Refresh(false)
+							n := 0
+							var last error
+							tm := time.NewTimer(10 * time.Second)
+						recv:
+							for {
+								select {
+								case e, ok := <-ch:
+									if !ok {
+										break recv
+									}
+									n++
+									last = e
+								case <-tm.C:
+									mu.Lock()
+									bad = "a refresh request was not answered within 10 s"
+									mu.Unlock()
+									return
+								}
+							}
+							tm.Stop()
+							mu.Lock()
+							if n != 1 && bad == "" {
+								bad = fmt.Sprintf("a refresh request received %d answers", n)
+							}
+							if last == nil {
+								okAnswers++
+							} else {
+								errAnswers++
+							}
+							mu.Unlock()
+							if last != nil {
+								// answered with the shutdown error: ask a few more times (requests after Close must be answered too), then stop
+								select {
+								case <-stop:
+									return
+								default:
+								}
+							}
+							select {
+							case <-stop:
+								return
+							default:
+							}
+						}
+					}()
+				}
+				time.Sleep(time.Duration(sc.CloseUs[round%len(sc.CloseUs)]) * time.Microsecond)
+				closed := make(chan struct{})
+				go func() {
+					defer close(closed)
+					for i := 0; i < sc.NClose; i++ {
+						m.Close()
+					}
+				}()
+				select {
+				case <-closed:
+				case <-time.After(10 * time.Second):
+					res.Fail("calls-return", "C14/refresh-manager-race/close-hangs", "round %d: Close did not return within 10 s", round)
+				}
+				time.Sleep(200 * time.Microsecond) // a few more requests against the closed manager
+				close(stop)
+				wg.Wait()
+				ps.Close()
+				h.Close()
+				if bad != "" {
+					res.Fail("operations-finish", "C14/refresh-manager-race/request-unanswered", "round %d: %s", round, bad)
+				}
+				if len(res.Violations) > 0 {
+					return
+				}
+				if okAnswers > 0 && errAnswers > 0 {
+					res.NonTrivial = true
+				}
+			}
+			return
+		},
+	})
+}
